@@ -23,7 +23,7 @@ func emitCase(emit Emit, c editops.ECase, withModel bool) {
 }
 
 func gen(r *Rng, tier string, emit Emit) {
-	n, nro, nfind, nguid := 260, 120, 150, 200
+	n, nro, nfind, nguid := 500, 200, 200, 200
 	if tier == "thorough" {
 		n, nro, nfind, nguid = 6000, 3000, 3000, 5000
 	}
